@@ -163,6 +163,33 @@ def run_population(pop, dt, churn=None):
     return viol, ncmp
 
 
+def run_twice(pop, how):
+    """the same model object simulated twice (a whole run repeated; single steps repeated one by one): every time is collected a second
+    time, and the statistics are those of the population as it was at the last collection"""
+    import copy
+    viol = []
+    m = StatModel(starttime=0, stoptime=2, dt=1, name="c13r", scheduler=SimultaneousScheduler(), data_collector=DataCollector())
+    m.instantiate_model()
+    m.plan = list(pop)
+    for _ in pop:
+        m.create_agent("a", copy.deepcopy(A_PROPS))
+    m.create_agent("b", {"kind": {"type": "String", "value": "b"}, "x": {"type": "Integer", "value": 0}})
+    try:
+        if how == "run":
+            m.run(show_progress_widget=False)
+            m.run(show_progress_widget=False)
+        else:
+            for step in (0, 1, 2, 1, 2, 0):
+                m.run_step(step)
+    except Exception as e:
+        import traceback
+        return [("rerun/raises/%s" % type(e).__name__, traceback.format_exc()[-300:])], 0
+    v = cmp_stats(m.statistics(), brute(m.snap))
+    if v:
+        viol.append(("rerun-%s/statistics/%s" % (how, v[0]), v[1]))
+    return viol, 1
+
+
 def run_pair(pop1, pop2):
     """two scenarios of one manager registered from a model that brings its own DataCollector: each scenario's numbers are
     those of its own population, whether the scenarios are requested together or one after the other"""
@@ -379,6 +406,10 @@ def populations(tier):
         for k in (0, 1, 2):
             for c in [(small[0],), (small[1], small[4]), (small[2], small[7], small[5])] + ([(a, b) for a in small[:4] for b in small[4:]] if tier == "thorough" else []):
                 out.append((c, "churn:%s:%d" % (where, k)))
+    # the same model simulated twice (every time collected a second time)
+    for how in ("run", "steps"):
+        for c in [(small[0],), (small[1], small[4]), (small[2], small[7], small[5])]:
+            out.append((c, "twice:%s" % how))
     # pairs of different populations as two scenarios of one manager
     for i, a in enumerate(small):
         for c in small[i + 1:i + 4]:
@@ -397,6 +428,8 @@ def _work(part):
     for pop, dt in part:
         if dt == "pair":
             out.append(run_pair(list(pop[0]), list(pop[1])))
+        elif isinstance(dt, str) and dt.startswith("twice:"):
+            out.append(run_twice(list(pop), dt.split(":")[1]))
         elif isinstance(dt, str):
             _, where, k = dt.split(":")
             out.append(run_population(list(pop), 1, churn=(where, int(k))))
@@ -440,6 +473,9 @@ def replay(case):
         return viol or None
     dt = case["dt"]
     churn = None
+    if isinstance(dt, str) and dt.startswith("twice:"):
+        viol, _ = run_twice([tuple(a) for a in case["population"]], dt.split(":")[1])
+        return viol or None
     if isinstance(dt, str):
         _, where, k = dt.split(":")
         dt, churn = 1, (where, int(k))
